@@ -106,7 +106,35 @@ func indexOf(layout []string, kind string) int {
 // genStage picks a node that is applicable to the layout and returns the layout after it.
 func genStage(r *lib.Rng, layout []string, allowBuffer, allowMdw bool) (stage, []string) {
 	for {
-		switch r.Intn(6) {
+		kinds := 6
+		if allowBuffer {
+			kinds = 9 // Limit, Distinct and OrderSensitiveTransform too (not behind poll, which only ends by an error)
+		}
+		switch r.Intn(kinds) {
+		case 6:
+			n := []int64{0, 1, 1, 2, 3, 5, 100, -1}[r.Intn(8)]
+			return stage{fmt.Sprintf("NLimit %s", lib.Z(n)), func(s execution.Node) (execution.Node, error) { return c18kit.Limit(s, n), nil }}, layout
+		case 7:
+			return stage{"NDistinct", func(s execution.Node) (execution.Node, error) { return c18kit.Distinct(s), nil }}, layout
+		case 8:
+			var cols []int
+			var desc []bool
+			var parts []string
+			for j, k := 0, r.Intn(3); j < k; j++ {
+				c, d := r.Intn(len(layout)), r.Bool()
+				cols, desc = append(cols, c), append(desc, d)
+				parts = append(parts, fmt.Sprintf("(%s, %d%%nat)", lib.CoqBool(d), c))
+			}
+			var lim *int64
+			limCoq := "None"
+			if r.Chance(1, 2) {
+				v := []int64{0, 1, 2, 3, 10, -1}[r.Intn(6)]
+				lim = &v
+				limCoq = fmt.Sprintf("(Some %s)", lib.Z(v))
+			}
+			return stage{fmt.Sprintf("NOrderBy %s %s false", lib.CoqList(parts), limCoq), func(s execution.Node) (execution.Node, error) {
+				return c18kit.OrderBy(s, cols, desc, lim, false), nil
+			}}, layout
 		case 0:
 			if !allowBuffer {
 				continue
